@@ -543,6 +543,40 @@ def config_locations():
             + defn("save_location_index", "nat", str(idx)))
 
 
+def suffix_handling():
+    """--config FILE: which suffixes the loader accepts (parse_config_file: lower-cased suffix in (*CONFIG_EXTENSIONS, '.json')) and
+    which the writer accepts (_write_config_file: exact suffix in CONFIG_EXTENSIONS, or == '.json'); a refused write is a
+    ConfigError, reported by `config set` / `config reset` with their own exit codes"""
+    exts = str_elems(find_assign(parse("src/core/constants.py"), "CONFIG_EXTENSIONS"))
+    _expect(exts and all(e.startswith(".") and e == e.lower() and e.isascii() for e in exts), f"CONFIG_EXTENSIONS: {exts}")
+    pf = [ast.unparse(x) for x in _body(find_func(parse(P), "parse_config_file"))]
+    _expect(len(pf) == 5 and pf[0] == "suffix = path.suffix.lower()" and pf[2].startswith("if suffix not in valid_suffixes:\n    raise ConfigParseError(")
+            and pf[3] == "with path.open(encoding=encoding) as f:\n    if suffix in CONFIG_EXTENSIONS:\n        config = parse_yaml(f, path)\n    else:\n        config = parse_json(f, path)"
+            and pf[4] == "return _normalize_config_keys(config)", f"parse_config_file: {pf}".replace("(*", "( *"))
+    m = re.fullmatch(r"valid_suffixes = \(\*CONFIG_EXTENSIONS, '(\.[a-z]+)'\)", pf[1])
+    _expect(m is not None, f"parse_config_file valid_suffixes: {pf[1]}".replace("(*", "( *"))
+    js = m.group(1)
+    wf = [ast.unparse(x) for x in _body(find_func(parse(S), "_write_config_file"))]
+    _expect(wf == [f"if path.suffix in CONFIG_EXTENSIONS:\n    _write_yaml_config(config, path)\nelif path.suffix == '{js}':\n    _write_json_config(config, path)\n"
+                   "else:\n    raise ConfigError(f'Unsupported config format: {path.suffix}')"], f"_write_config_file: {wf}")
+    wl = [ast.unparse(x) for x in _body(find_func(parse(S), "_write_and_log_config"))]
+    _expect(wl == ["try:\n    _write_config_file(config, path)\n    logger.info('Saved config to: %s', path)\nexcept ConfigError:\n    raise\n"
+                   "except Exception as e:\n    raise ConfigError(f'Failed to save config to {path}: {e}') from e"], f"_write_and_log_config: {wl}")
+    cm = parse(C)
+    sb = ast.unparse(_body(find_func(cm, "config_set"))[-1])
+    ms = re.fullmatch(r"try:\n    config_path = ctx\.obj\.get\('config_path'\)\n    verbose = ctx\.obj\.get\('verbose', False\)\n"
+                      r"    _save_and_report_success\(cfg, key, converted_value, config_path, verbose\)\nexcept ConfigError as e:\n"
+                      r"    click\.echo\(f'Error saving configuration: \{e\}', err=True\)\n    sys\.exit\((\d+)\)", sb)
+    _expect(ms is not None, f"config_set save step: {sb}")
+    rb = ast.unparse(_body(find_func(cm, "config_reset"))[-1])
+    mr = re.fullmatch(r"try:\n    config_path = ctx\.obj\.get\('config_path'\)\n    save_config\(DEFAULT_CONFIG\.copy\(\), config_path\)\n"
+                      r"    click\.echo\('Configuration reset to defaults'\)\n    logger\.debug\('Configuration reset to defaults'\)\nexcept ConfigError as e:\n"
+                      r"    click\.echo\(f'Error resetting configuration: \{e\}', err=True\)\n    sys\.exit\((\d+)\)", rb)
+    _expect(mr is not None, f"config_reset save step: {rb}")
+    return (defn("config_extensions", "list string", coq_str_list(exts)) + defn("json_extension", "string", coq_string(js))
+            + defn("save_error_exit", "nat", ms.group(1)) + defn("reset_error_exit", "nat", mr.group(1)))
+
+
 def convert_value():
     f = find_func(parse(C), "_convert_value_type")
     b = _body(f)
@@ -582,4 +616,5 @@ ITEMS = [
     ("save_and_load", save_and_load),
     ("convert_value", convert_value),
     ("config_locations", config_locations),
+    ("suffix_handling", suffix_handling),
 ]
